@@ -440,10 +440,16 @@ func c20Fetch(x *xctx) *violation {
 	K := simrt.KGen
 	n := 2 + t.Choose(K, 5)
 	nb := t.Choose(K, 3)
+	pct := 30
+	if t.Bool(K, 12) {
+		// many sources, most of them failing: bounded-parallelism bookkeeping
+		n = 40 + t.Choose(K, 100)
+		pct = []int{50, 85, 97}[t.Choose(K, 3)]
+	}
 	c := &c16case{diffBase: nb > 0 && t.Bool(K, 40), hasBase: nb > 0}
 	for i := 0; i < n+nb; i++ {
 		s := &c16src{idx: i, base: i >= n, kind: t.Choose(K, 3)}
-		s.fault = c16FaultFor(t, s.kind, 30)
+		s.fault = c16FaultFor(t, s.kind, pct)
 		s.samples = c16GenSamples(t)
 		s.tornAt = 1 + t.Choose(simrt.KFault, 200)
 		s.materialize()
